@@ -59,6 +59,29 @@ def run(res, tier, replay):
             scns.append(sc); meta.append(("chm-hist", i, order))
             for m in range(len(names)):
                 scns.append(scenario.Scn().file("in0.chm", chm).op("chm_new").op("chm_open", "h0", "in0.chm").op("chm_extract", "h0", m, "ref")); meta.append(("chm-ref", i, m))
+    # what a rebuilt decoder inherits: cabinets whose folders each begin with a match reaching before the start of the stream, run
+    # with an allocator that hands a freed block to the next request of the same size untouched (as a real heap does); the member
+    # must come out as from a fresh decompressor whatever folder was decoded before
+    for i in range(4 if tier == "quick" else 30):
+        import struct as _st
+        fps = []; files = []; mems = 0
+        for fi in range(rng.choice([2, 3])):
+            toks = [("M", rng.randrange(3, 11), rng.randrange(1, 5))] + [("L", rng.randrange(1, 256)) if rng.random() < 0.6 else ("M", rng.randrange(3, 11), rng.randrange(1, 5)) for _ in range(rng.randrange(2, 30))]
+            if fi == 0 and rng.random() < 0.5: toks = [("L", rng.randrange(1, 256)) for _ in range(40)]
+            ulen = sum(1 if t[0] == "L" else t[1] for t in toks)
+            fps.append((1, [(b"CK" + sweep.fixed_deflate(toks), ulen)])); files.append((b"m%d.bin" % fi, ulen, 0, fi, 0x5A21, 0x6C43, 0x20)); mems += 1
+        from vlib import cabfmt
+        # one ordinary folder that fills the whole 32K window of its decoder
+        big = cabfmt.Folder(("mszip",), cabfmt.random_members(rng, 1, lens=[rng.choice([33000, 40000])])); big.prepare(rng)
+        fps.append((1, big.blocks)); files.append((b"big.bin", big.members[0].length, 0, len(fps) - 1, 0x5A21, 0x6C43, 0x20)); mems += 1
+        cab = cabfmt.build_cab(fps, files)
+        order = [mems - 1, 0, mems - 1, 1] + [rng.randrange(mems) for _ in range(8)] + list(range(mems)) + list(reversed(range(mems)))
+        sc = scenario.Scn(); sc.lines.append("recycle 1"); sc.file("in0.cab", cab).op("cab_new").op("cab_open", "c0", "in0.cab")
+        for j, m_ in enumerate(order): sc.op("cab_extract", "c0", m_, "o%d_%d" % (j, m_))
+        scns.append(sc); meta.append(("rcy-hist", 5000 + i, order))
+        for m_ in range(mems):
+            r_ = scenario.Scn(); r_.lines.append("recycle 1"); r_.file("in0.cab", cab).op("cab_new").op("cab_open", "c0", "in0.cab").op("cab_extract", "c0", m_, "ref")
+            scns.append(r_); meta.append(("rcy-ref", 5000 + i, m_))
     trs = scenario.run_scenarios(exe, scns)
     ref = {}
     for t, m in zip(trs, meta):
@@ -77,6 +100,7 @@ def run(res, tier, replay):
         for j, o in enumerate(ex):
             idx = int(o.kv["idx"]) if "idx" in o.kv else m[2][j]
             want = ref.get((m[0][:3], m[1], idx)); ncalls += 1
+            if m[0] == "rcy-hist": idx = m[2][j]
             fol = m[2][idx] if m[0] == "cab-hist" and idx < len(m[2]) else None
             if want is None: continue
             if (o.kv.get("st"), o.out) != want:
